@@ -94,7 +94,8 @@ int EGLPNUM_TYPENAME_ILLis_lp_name_char (
 					(('A' <= c) && (c <= 'Z')) ||
 					((pos > 0) && ('0' <= c) && (c <= '9')) ||
 					((pos > 0) && (c == '.')) ||
-					(strchr ("!\"#$%&()/,;?@_`'{}|~", c) != NULL));
+					/* strchr also finds the terminator of the set: NUL is no name character */
+					((c != '\0') && (strchr ("!\"#$%&()/,;?@_`'{}|~", c) != NULL)));
 }
 
 
